@@ -1,5 +1,6 @@
 PROP = {
     "level": "proof",
+    "timeout_quick": 300,
     "legs": ["c17-maps", "c17-direct"],
     "trusted_base": TB_COMMON + [
         "token abstraction of the pattern text (Model/Options.v gtok) and the harness printer that spells token lists as patterns; a printer/abstraction error shows as a model mismatch in leg c17-maps",
